@@ -1,3 +1,4 @@
+import OpacusLean.Generated.PrvDomain
 import OpacusLean.Lemmas.PrvEps
 import OpacusLean.Lemmas.PrvRoll
 import OpacusLean.Lemmas.PrvTree
@@ -496,5 +497,39 @@ example : ∃ lo est hi : ℝ, lo ≤ est ∧ est ≤ hi ∧
   have o := eps_triple_ordered _ 0 (1/10) 0 0 lo est hi hp hlog (le_refl _) (le_refl _) (le_refl _) h
   have i := find_epsilon_inverts_hockey_stick _ 0 (1/10) 0 0 lo est hi hp hlog (le_refl _) h
   exact ⟨lo, est, hi, o.1, o.2, i.1⟩
+
+/-! ## The tie to the source: mesh size, δ split and the last line of `compute_safe_domain_size` (`Generated/PrvDomain.lean`) -/
+
+set_option linter.unusedTactic false in
+set_option linter.unreachableTactic false in
+/-- `mesh_size`, the two δ arguments handed to the RDP accountant and `max(L_max, eps_error) + 3`, re-translated on every run,
+are the model's `meshSize`, the split `δ_err/4`, `δ_err/(8·Σn)` described at `safeDomainSize`, and its last line – so that
+`safeFinal` of the running maximum is `safeDomainSize` -/
+theorem generated_prv_domain_eq_model (epsError deltaError : ℝ) (total : ℕ) (epsAll : ℝ) (epsEach : List ℝ) :
+    Opacus.Generated.PrvDomain.meshSize epsError deltaError (total : ℝ) = meshSize epsError deltaError total ∧
+    Opacus.Generated.PrvDomain.deltaAll deltaError (total : ℝ) = deltaError / 4 ∧
+    Opacus.Generated.PrvDomain.deltaEach deltaError (total : ℝ) = deltaError / (8 * total) ∧
+    Opacus.Generated.PrvDomain.safeFinal (epsEach.foldl (fun acc e => if acc < e then e else acc) epsAll) epsError
+      = safeDomainSize epsAll epsEach epsError := by
+  refine ⟨?_, ?_, ?_, ?_⟩
+  · first
+    | rfl
+    | (simp only [Opacus.Generated.PrvDomain.meshSize, meshSize, Analytic.sqrt, Analytic.log, Nat.cast_ofNat]; done)
+    | (simp only [Opacus.Generated.PrvDomain.meshSize, meshSize, Analytic.sqrt, Analytic.log, Nat.cast_ofNat]; ring_nf; done)
+    | (simp only [Opacus.Generated.PrvDomain.meshSize, meshSize, Analytic.sqrt, Analytic.log, Nat.cast_ofNat]; congr 2; ring_nf)
+  · unfold Opacus.Generated.PrvDomain.deltaAll; first | rfl | (ring_nf; done) | norm_num
+  · unfold Opacus.Generated.PrvDomain.deltaEach; first | rfl | (ring_nf; done) | norm_num
+  · simp only [Opacus.Generated.PrvDomain.safeFinal, safeDomainSize, Nat.cast_ofNat]
+    generalize epsEach.foldl (fun acc e => if acc < e then e else acc) epsAll = m
+    by_cases h : m < epsError
+    · have hm : max m epsError = epsError := max_eq_right h.le
+      have hm' : max epsError m = epsError := max_eq_left h.le
+      simp only [if_pos h, hm, hm']
+      first | done | ring_nf
+    · have h' : epsError ≤ m := not_lt.mp h
+      have hm : max m epsError = m := max_eq_left h'
+      have hm' : max epsError m = m := max_eq_right h'
+      simp only [if_neg h, hm, hm']
+      first | done | ring_nf
 
 end Opacus.C07
